@@ -1,6 +1,7 @@
 //! zsim — deterministic simulation with fault injection for KillingSpark/zstd-rs (see /verif/DESIGN.md).
 
 mod c03;
+mod c04;
 mod c05;
 mod c06;
 mod c07;
@@ -46,6 +47,10 @@ macro_rules! with_engine {
                 let $e = c03::C03;
                 $body
             }
+            "C04" => {
+                let $e = c04::C04;
+                $body
+            }
             "C05" => {
                 let $e = c05::C05;
                 $body
@@ -74,7 +79,7 @@ macro_rules! with_engine {
     };
 }
 
-pub const ALL_ENGINES: &[&str] = &["C03", "C05", "C06", "C07", "C08", "C09", "C10", "C11"];
+pub const ALL_ENGINES: &[&str] = &["C03", "C04", "C05", "C06", "C07", "C08", "C09", "C10", "C11"];
 
 fn do_replay<E: Engine>(engine: &E, path: &Path) -> i32 {
     match runner::replay(engine, path) {
@@ -122,6 +127,8 @@ fn main() {
     let mut evidence = true;
     let mut opts = CheckOpts::default();
     let mut fraction: u64 = 1;
+    let mut index: u64 = 0;
+    let mut class = String::new();
     let mut pos = Vec::new();
     let mut i = 1;
     while i < args.len() {
@@ -149,6 +156,33 @@ fn main() {
                     opts.attach.push((n.to_string(), std::path::PathBuf::from(p)));
                 }
             }
+            "--small" => std::env::set_var("ZSIM_SMALL", "1"),
+            "--index-base" => {
+                i += 1;
+                if let Some(w) = args.get(i) {
+                    std::env::set_var("ZSIM_INDEX_BASE", w);
+                }
+            }
+            "--index" => {
+                i += 1;
+                index = args.get(i).and_then(|s| s.parse().ok()).unwrap_or(0);
+            }
+            "--class" => {
+                i += 1;
+                class = args.get(i).cloned().unwrap_or_default();
+            }
+            "--workers" => {
+                i += 1;
+                if let Some(w) = args.get(i) {
+                    std::env::set_var("ZSIM_WORKERS", w);
+                }
+            }
+            "--seed" => {
+                i += 1;
+                if let Some(w) = args.get(i) {
+                    std::env::set_var("VERIF_SEED", w);
+                }
+            }
             "--fraction" => {
                 i += 1;
                 fraction = args.get(i).and_then(|s| s.parse().ok()).unwrap_or(1);
@@ -173,6 +207,21 @@ fn main() {
                     (None, n) => Some((e.runs(tier) / n).max(1)),
                 };
                 check(&e, tier, &opts).exit
+            })
+        }
+        "emit-replay" => {
+            let Some(id) = pos.first() else { usage() };
+            let build = if opts.build_label.is_empty() { "miri".to_string() } else { opts.build_label.clone() };
+            with_engine!(id.as_str(), e => match runner::emit_replay(&e, tier, index, &class, &build) {
+                Ok(p) => {
+                    println!("VIOLATION property={} replay={}", id, p.display());
+                    println!("  class={class} index={index} (reported by the {build} build)");
+                    1
+                }
+                Err(e) => {
+                    println!("HARNESS-ERROR {}", e.msg);
+                    2
+                }
             })
         }
         "replay" => {
